@@ -7,17 +7,10 @@ From Coq Require Import String.
 From Coq Require Import List Ascii ZArith Bool Lia.
 From CGV Require Import Base.PyBase Base.PyVal Base.NxGraph Dialect.DialectImpl
      Reader.ReaderImpl Reader.Grammar Reader.ReaderLemmas Reader.Lin Reader.ReaderSim Reader.ReaderMult Reader.ReaderAst
-     Reader.ReaderWf Reader.ReaderLast Reader.ReaderX.
+     Reader.ReaderWf Reader.ReaderLast Reader.UnitsDefs Reader.ReaderX.
 Import ListNotations.
 
 (** ** the flat form *)
-Definition node_x (n : pystr) (r : list (option sym * marker)) (m : option (list nat)) (b : option sym) : xlin :=
-  {| x_open := false; x_name := n; x_mult := m; x_rings := r; x_bond := b; x_closes := [] |}.
-Definition xset_open (x : xlin) : xlin :=
-  {| x_open := true; x_name := x_name x; x_mult := x_mult x; x_rings := x_rings x; x_bond := x_bond x; x_closes := x_closes x |}.
-Definition xadd_close (a : option sym) (x : xlin) : xlin :=
-  {| x_open := x_open x; x_name := x_name x; x_mult := x_mult x; x_rings := x_rings x; x_bond := x_bond x;
-     x_closes := x_closes x ++ [a] |}.
 (** "(" in front of the first item, ")a" behind the last *)
 Definition xwrap (a : option sym) (l : list xlin) : list xlin :=
   match l with
